@@ -99,7 +99,7 @@ theorem shut_drainSlots (h : Shut o c) (r : Reply) (m : CMsg) : Shut o (drainSlo
   obtain ⟨_, h2, h3, _⟩ := drainSlots_spec c r m
   exact h.same h2 h3
 
-theorem shut_with_nondet (h : Shut o c) (b : Bool) : Shut o { c with nondet := b } := by
+theorem shut_with_nondet (h : Shut o c) (b : Bool) : Shut o { c with nondet := c.nondet || b } := by
   shut_same h
 
 theorem shut_dispatchContent (h : Shut o c) (n : Nat) (slot : Slot) (ct : Content) :
@@ -213,5 +213,276 @@ theorem shut_popFifo {c1 : Conn} {m : Msg} (h : Shut o c) {lid : Nat}
   obtain ⟨_, _, _, hse, hout, _, _⟩ := popFifo_spec hp
   exact h.same hse hout
 
+theorem shut_drainFifo (h : Shut o c) (fuel n : Nat) : Shut o (drainFifo fuel c n).1 := by
+  induction fuel generalizing c with
+  | zero => exact h
+  | succ fuel ih =>
+    unfold drainFifo
+    dsimp only
+    split
+    · exact h
+    · split
+      · rename_i hp
+        have h1 := shut_popFifo h hp
+        split
+        · rename_i heq; exact (shut_processChannelMessage h1 n _).of_eq_fst heq
+        · rename_i heq; exact ih ((shut_processChannelMessage h1 n _).of_eq_fst heq)
+      · split <;> exact h
+
+theorem shut_setBlockedLoop (h : Shut o c) (fuel : Nat) : Shut o (setBlockedLoop fuel c).1 := by
+  induction fuel generalizing c with
+  | zero => exact h
+  | succ fuel ih =>
+    unfold setBlockedLoop
+    split
+    · split <;> exact h
+    · exact ih (by shut_same h)
+
+theorem shut_allocateLoop (h : Shut o c) (fuel : Nat) : Shut o (allocateLoop fuel c).1 := by
+  induction fuel generalizing c with
+  | zero => exact h
+  | succ fuel ih =>
+    unfold allocateLoop
+    split
+    · split <;> exact h
+    · rename_i req rest hreq
+      dsimp only
+      cases req
+      case' none =>
+        dsimp only
+        generalize Slots.insertNone c.alloc = p
+      case' some id =>
+        dsimp only
+        generalize Slots.insertSome c.alloc id = p
+      all_goals
+        repeat' split
+        all_goals first
+          | shut_same h
+          | exact ih (by shut_same h)
+
+theorem shut_writeToStream (h : Shut o c) : Shut o (writeToStream c).1 :=
+  h.of_still (still_writeToStream c)
+
+theorem shut_processBytes (h : Shut o c) (bytes : Bytes) : Shut o (processBytes c bytes).1 := by
+  unfold processBytes
+  split
+  · split
+    · exact shut_process h _ _ _
+    · exact h
+  · exact h
+
+theorem shut_readFromStream_go (h : Shut o c) (l : List Bytes) :
+    Shut o (readFromStream.go c l).1 := by
+  induction l generalizing c with
+  | nil => exact h
+  | cons fr rest ih =>
+    unfold readFromStream.go
+    split
+    · rename_i heq; exact (shut_processBytes h fr).of_eq_fst heq
+    · rename_i heq; exact ih ((shut_processBytes h fr).of_eq_fst heq)
+
+theorem shut_readFromStream (h : Shut o c) : Shut o (readFromStream c).1 := by
+  unfold readFromStream
+  dsimp only
+  split
+  · rename_i heq
+    exact (shut_readFromStream_go (by shut_same h) _).of_eq_fst heq
+  · rename_i heq
+    have h1 := (shut_readFromStream_go (c := { c with fb := _, reads := _ }) (by shut_same h) _).of_eq_fst heq
+    split <;> exact h1
+
+theorem shut_handleEvent (h : Shut o c) (t : Token) : Shut o (handleEvent c t).1 := by
+  unfold handleEvent
+  split
+  · rename_i r w
+    cases w <;> cases r <;> simp only [Bool.false_eq_true, ↓reduceIte]
+    all_goals (repeat' split)
+    all_goals first
+      | exact h
+      | exact shut_writeToStream h
+      | exact shut_readFromStream h
+      | exact shut_readFromStream (shut_writeToStream h)
+  · exact h
+  · split
+    · exact shut_setBlockedLoop h _
+    · split <;> exact h
+  · split
+    · exact shut_allocateLoop h _
+    · split <;> exact h
+  · split
+    · exact shut_drainFifo h _ _
+    · split <;> exact h
+  · exact shut_drainFifo h _ _
+
+theorem shut_kill (h : Shut o c) : Shut o (kill c) := by
+  obtain ⟨_, h2, _, h4, _, _⟩ := kill_spec c
+  exact h.same h2 h4
+
+theorem shut_deregisterAll (h : Shut o c) : Shut o (deregisterAll c) :=
+  h.of_same (same_deregisterAll c)
+
+theorem shut_reregisterAll (h : Shut o c) : Shut o (reregisterAll c) :=
+  h.of_same (same_reregisterAll c)
+
+theorem shut_pollAll (h : Shut o c) : Shut o (pollAll c).1 :=
+  h.of_same (same_pollAll c)
+
+theorem shut_ioStep (h : Shut o c) (op : IoOp) : Shut o (ioStep c op).1 := by
+  unfold ioStep
+  split
+  · split <;> exact h
+  · dsimp only
+    split
+    all_goals (repeat' split)
+    all_goals first
+      | exact h
+      | exact shut_kill h
+      | exact shut_processBytes h _
+      | exact shut_kill (shut_processBytes h _)
+      | exact shut_handleEvent h _
+      | exact shut_kill (shut_handleEvent h _)
+      | exact shut_writeToStream h
+      | exact shut_kill (shut_writeToStream h)
+      | exact shut_deregisterAll h
+      | exact shut_reregisterAll h
+      | exact shut_pollAll h
+
+/-! ### Client operations -/
+
+theorem shut_newListener (h : Shut o c) (l : Label) : Shut o (newListener c l) := by
+  unfold newListener; shut_same h
+
+theorem shut_allocRequest (h : Shut o c) (req : Option Nat) : Shut o (allocRequest c req).1 := by
+  unfold allocRequest
+  repeat' split
+  all_goals first | exact h | shut_same h
+
+theorem shut_setBlockedRequest (h : Shut o c) (l : Label) : Shut o (setBlockedRequest c l).1 := by
+  unfold setBlockedRequest
+  repeat' split
+  all_goals first | exact h | shut_same h
+
+theorem shut_allocReply (h : Shut o c) (label : Label) : Shut o (allocReply c label).1 := by
+  unfold allocReply
+  repeat' split
+  all_goals first | exact h | shut_same h
+
+theorem shut_clientSend (h : Shut o c) (label : Label) (m : Msg) : Shut o (clientSend c label m).1 := by
+  unfold clientSend
+  split
+  · exact h
+  · dsimp only
+    repeat' split
+    all_goals first | exact h | shut_same h
+
+theorem shut_clientRecv (h : Shut o c) (label cl : Label) : Shut o (clientRecv c label cl).1 := by
+  unfold clientRecv
+  split
+  · exact h
+  · dsimp only
+    repeat' split
+    all_goals first | exact h | shut_same h
+
+theorem shut_consRecv (h : Shut o c) (cl : Label) : Shut o (consRecv c cl).1 := by
+  unfold consRecv
+  repeat' split
+  all_goals first | exact h | shut_same h
+
+theorem shut_lstRecv (h : Shut o c) (l : Label) : Shut o (lstRecv c l).1 := by
+  unfold lstRecv
+  repeat' split
+  all_goals first | exact h | shut_same h
+
+theorem shut_dropCons (h : Shut o c) (cl : Label) : Shut o (dropCons c cl) := by
+  unfold dropCons
+  repeat' split
+  all_goals first | exact h | shut_same h
+
+theorem shut_dropListener (h : Shut o c) (l : Label) : Shut o (dropListener c l) := by
+  unfold dropListener
+  repeat' split
+  all_goals first | exact h | shut_same h
+
+theorem shut_dropHandle (h : Shut o c) (label : Label) : Shut o (dropHandle c label) := by
+  unfold dropHandle
+  split
+  · exact h
+  · rename_i lid _
+    dsimp only
+    have h1 : Shut o ((getLink c lid).replies.foldl dropReply c) :=
+      foldl_invariant (Shut o) _ (fun a x ha => shut_dropReply ha x) _ _ h
+    split <;> shut_same h1
+
+theorem shut_clientStep (h : Shut o c) (op : ClientOp) : Shut o (clientStep c op).1 := by
+  cases op with
+  | allocReq req => exact shut_allocRequest h req
+  | allocRep label => exact shut_allocReply h label
+  | send label m =>
+    unfold clientStep
+    dsimp only
+    split
+    · exact shut_clientSend (shut_newListener h _) label m
+    · exact shut_clientSend h label m
+  | setBlocked l => exact shut_setBlockedRequest (shut_newListener h l) l
+  | recv label cl => exact shut_clientRecv h label cl
+  | crecv cl => exact shut_consRecv h cl
+  | lrecv l => exact shut_lstRecv h l
+  | dropHandle label => exact shut_dropHandle h label
+  | dropCons cl => exact shut_dropCons h cl
+  | dropLst l => exact shut_dropListener h l
+
+/-- Every operation — client, I/O thread, harness; legal or not; on a live or dead loop, repaired
+    or legacy code — keeps writes sealed and only lets the transport take bytes from the front. -/
+theorem shut_step (h : Shut o c) (op : Op) : Shut o (step c op) := by
+  cases op with
+  | io op => exact shut_ioStep h op
+  | client op => exact shut_clientStep h op
+  | decl d => show Shut o { c with table := c.table ++ [d] }; shut_same h
+  | feed evs => show Shut o { c with reads := c.reads ++ evs }; shut_same h
+  | wscript ws => show Shut o { c with writes := c.writes ++ ws }; shut_same h
+
+theorem shut_run (h : Shut o c) (ops : List Op) : Shut o (run c ops) := by
+  induction ops generalizing c with
+  | nil => exact h
+  | cons op rest ih => exact ih (shut_step h op)
+
 end Shut
+
+/-! ## 2. What a write hands to the transport -/
+
+/-- The bytes `write_to_stream` has handed over are always a prefix of the buffer; on success the
+    buffer keeps exactly the rest, on an error it is left untouched. -/
+theorem writeLoop_wrote (fuel : Nat) (c : Conn) (pos : Nat) (w : Bytes) (hw : w = c.out.take pos) :
+    ∃ k, (writeLoop fuel c pos w).2.1 = c.out.take k ∧
+      ((writeLoop fuel c pos w).2.2 = none → (writeLoop fuel c pos w).1.out = c.out.drop k) ∧
+      ((writeLoop fuel c pos w).2.2 ≠ none → (writeLoop fuel c pos w).1.out = c.out) := by
+  induction fuel generalizing c pos w with
+  | zero =>
+    unfold writeLoop
+    exact ⟨pos, hw, fun h => by cases h, fun _ => rfl⟩
+  | succ fuel ih =>
+    unfold writeLoop
+    split
+    · split
+      · exact ⟨pos, hw, fun _ => rfl, fun h => absurd rfl h⟩
+      · exact ⟨pos, hw, fun _ => rfl, fun h => absurd rfl h⟩
+      · exact ⟨pos, hw, fun h => by cases h, fun _ => rfl⟩
+      · rename_i k rest hwr
+        exact ih { c with writes := rest } _ _ (by subst hw; exact List.take_add.symm)
+    · rename_i hlt
+      refine ⟨pos, hw, fun _ => ?_, fun h => absurd rfl h⟩
+      show [] = c.out.drop pos
+      rw [List.drop_eq_nil_of_le (Nat.le_of_not_lt hlt)]
+
+theorem writeToStream_wrote (c : Conn) :
+    ∃ k, (writeToStream c).2.1 = c.out.take k ∧
+      ((writeToStream c).2.2 = none → (writeToStream c).1.out = c.out.drop k) ∧
+      ((writeToStream c).2.2 ≠ none →
+        (writeToStream c).2.2 = some .ioErrorWritingSocket ∧ (writeToStream c).1.out = c.out) := by
+  obtain ⟨k, h1, h2, h3⟩ := writeLoop_wrote (c.out.length + c.writes.length + 2) c 0 [] rfl
+  refine ⟨k, h1, h2, fun hne => ⟨?_, h3 hne⟩⟩
+  rcases (writeToStream_spec c).2.2.2.2.2.2.2.2.2 with h | h
+  · exact absurd h hne
+  · exact h
+
 end AmqModel.Conn
